@@ -261,20 +261,20 @@ var APIs = []API{
 
 	// ---- C08
 	{Name: "ReplaceAll", Group: "replace",
-		Std: func(re *regexp.Regexp, a *Args) any { return re.ReplaceAll(a.H, []byte(a.Repl)) },
-		Co:  func(re *coregex.Regex, a *Args) any { return re.ReplaceAll(a.H, []byte(a.Repl)) }},
+		Std: func(re *regexp.Regexp, a *Args) any { return string(re.ReplaceAll(a.H, []byte(a.Repl))) },
+		Co:  func(re *coregex.Regex, a *Args) any { return string(re.ReplaceAll(a.H, []byte(a.Repl))) }},
 	{Name: "ReplaceAllString", Group: "replace",
 		Std: func(re *regexp.Regexp, a *Args) any { return re.ReplaceAllString(string(a.H), a.Repl) },
 		Co:  func(re *coregex.Regex, a *Args) any { return re.ReplaceAllString(string(a.H), a.Repl) }},
 	{Name: "ReplaceAllLiteral", Group: "replacelit",
-		Std: func(re *regexp.Regexp, a *Args) any { return re.ReplaceAllLiteral(a.H, []byte(a.Repl)) },
-		Co:  func(re *coregex.Regex, a *Args) any { return re.ReplaceAllLiteral(a.H, []byte(a.Repl)) }},
+		Std: func(re *regexp.Regexp, a *Args) any { return string(re.ReplaceAllLiteral(a.H, []byte(a.Repl))) },
+		Co:  func(re *coregex.Regex, a *Args) any { return string(re.ReplaceAllLiteral(a.H, []byte(a.Repl))) }},
 	{Name: "ReplaceAllLiteralString", Group: "replacelit",
 		Std: func(re *regexp.Regexp, a *Args) any { return re.ReplaceAllLiteralString(string(a.H), a.Repl) },
 		Co:  func(re *coregex.Regex, a *Args) any { return re.ReplaceAllLiteralString(string(a.H), a.Repl) }},
 	{Name: "ReplaceAllFunc", Group: "replacefn",
-		Std: func(re *regexp.Regexp, a *Args) any { return re.ReplaceAllFunc(a.H, fn(a)) },
-		Co:  func(re *coregex.Regex, a *Args) any { return re.ReplaceAllFunc(a.H, fn(a)) }},
+		Std: func(re *regexp.Regexp, a *Args) any { return string(re.ReplaceAllFunc(a.H, fn(a))) },
+		Co:  func(re *coregex.Regex, a *Args) any { return string(re.ReplaceAllFunc(a.H, fn(a))) }},
 	{Name: "ReplaceAllStringFunc", Group: "replacefn",
 		Std: func(re *regexp.Regexp, a *Args) any { return re.ReplaceAllStringFunc(string(a.H), sfn(a)) },
 		Co:  func(re *coregex.Regex, a *Args) any { return re.ReplaceAllStringFunc(string(a.H), sfn(a)) }},
